@@ -140,6 +140,23 @@ CHECKS['C03'] = dict(
     technique='property-based testing (Hypothesis) with call-log oracle of '
               'an instrumented pure likelihood')
 
+CHECKS['C10'] = dict(
+    category='exploration', design_ref='DESIGN.md §11 (C10)',
+    text='Hypothesis-generated histories of run() calls with drawn limits '
+         '(n_like_max below/at/above the count and off batch multiples, '
+         'fake-clock timeouts incl. zero, n_shell, n_eff) and resumes; the '
+         'call log of instrumented prior and likelihood (shared counter for '
+         'worker pools) is compared with n_like after every run and resume, '
+         'every step must evaluate exactly n_batch rows (one call when '
+         'vectorised), every prior argument lies in [0,1), the budget '
+         'clauses hold, and the return value equals the success predicate '
+         'recomputed with independent estimators.',
+    note='Clock is nautilus.sampler.time replaced by a fake; n_eff ties '
+         'within 1e-6 are skipped as ambiguous; an unlimited run is capped '
+         'at 40 batches to bound case cost.',
+    technique='property-based testing (Hypothesis) over call histories with '
+              'a call-log oracle and fake clock')
+
 NOT_YET = {}
 
 
